@@ -198,6 +198,17 @@ def check_case(case, ctx):
     # twin on which the observer-based rule is first used in a later state
     instance_late = build_instance(inst)
     d_late = Dispatcher(instance_late, solver.ready_operations_filter)
+    if case["seed"] % 2:
+        # the caller's dispatcher already carries observers of its own that do
+        # not track job features
+        from job_shop_lib.dispatching.feature_observers import (
+            DurationObserver,
+            FeatureType,
+            IsReadyObserver,
+        )
+
+        DurationObserver(d_late, feature_types=[FeatureType.OPERATIONS])
+        IsReadyObserver(d_late, feature_types=[FeatureType.OPERATIONS, FeatureType.MACHINES])
     late_from = case["seed"] % 7
     m = ref(inst)
     n = m.n_ops
@@ -240,6 +251,18 @@ def check_case(case, ctx):
         score_rows = None
         if scorers is not None:
             score_rows = [list(s(d)) for s in scorers]
+        if kind != "random":
+            # a rule is a read-only function of the state: asking it (twice)
+            # changes neither its answer nor what the dispatcher reports
+            r1 = solver.dispatching_rule(d)
+            r2 = solver.dispatching_rule(d)
+            ctx.check(r1 is r2, "rule-not-deterministic", f"step {k}: the rule returned {fp.jp(r1)} then {fp.jp(r2)} in the same state")
+            again = [fp.jp(o) for o in d.available_operations()]
+            ctx.check(
+                again == real_avail and [fp.jp(o) for o in d.raw_ready_operations()] == m.ready(),
+                "rule-changed-state",
+                f"step {k}: after calling the rule available_operations() is {again}, was {real_avail}",
+            )
         before = [len(lst) for lst in d.schedule.schedule]
         solver.step(d)
         after = [len(lst) for lst in d.schedule.schedule]
